@@ -173,7 +173,7 @@ type bound struct {
 //	full      : names <= FullTokens (the rest)     x {file, dir, after-dir} x {abs, a} x {os, mem}, "." on mem
 //	long      : names <= MainTokens (the rest)     x {file, dir} x {abs, a} on mem; {file} x {abs, a} on os   (thorough)
 //	            names <= MainTokens (the rest)     x {file, dir} x abs x {os, mem}, a on mem                  (quick)
-//	extras    : six hand-picked longer names x {file, deflate, after-dir} x 7 forms x {os, mem} x {no limits, recursive}; nested
+//	extras    : nine hand-picked longer names x {file, deflate, after-dir} x 7 forms x {os, mem} x {no limits, recursive}; nested
 //	deep      : deep sub-alphabet <= DeepTokens    x {file, dir, after-dir} x abs x {os, mem}, a on mem
 //	shapes    : variant names x {deflate, symlink, after-symlink} x {abs, a} x {os, mem}
 //	limits    : variant names x {file, dir} x {abs, a} x {os, mem} x {non-recursive limits, recursive limits}
@@ -223,6 +223,11 @@ func space(thorough bool) ([]*block, bound) {
 		[]byte(".\x1b(B./a/C:\xe9"),
 		[]byte(".\x1b(B./a\\C:\xe9"),
 		[]byte(".\x1b(B./a C:\xe9"),
+		// the byte that triggers the transcoding sits in a DIRECTORY element: the directory part of the entry is itself a
+		// name that is transcoded into something with parent references
+		[]byte("x/.\x1b(B./.\x1b(B./evil\xe9/f"),
+		[]byte("a/.\x1b(B./.\x1b(B./.\x1b(B./\xe9/a"),
+		[]byte("x/.\x1b(B./.\x1b(B./.\x1b(B./planted\xff/evil.txt"),
 	}
 	blocks := []*block{
 		{id: "all-forms", names: allFormsNames, shapes: mainShapes, targets: product(all, "os", "mem"), destExists: true, limits: none},
